@@ -197,9 +197,10 @@ PROPS["C01"]["rule"] += ("; plus a name-length sweep (entries of drawn lengths 1
                          "and an overflow burst after which six more changes are queued behind the overflow marker: all of those must be delivered and ErrEventOverflow announced")
 _parts("C08", dict(pkg="props", test="TestC08Sweep", checks_scale=0.5))
 PROPS["C08"]["rule"] += "; plus the name-length sweep of C01 with the Add argument drawn from 8 spellings (relative, ./, trailing slashes, absolute, through a symlink, ../r/d0)"
-_parts("C10", dict(pkg="props", test="TestC10Overflow", single=True))
+_parts("C10", dict(pkg="props", test="TestC10Overflow", single=True), dict(pkg="props", test="TestC10Sweep", checks_scale=0.25))
 PROPS["C10"]["rule"] += ("; plus overflow bursts (reader parked, max_queued_events + delta alternating attribute changes, delta from the seed; 1 burst quick / 10 thorough): ErrEventOverflow must arrive on Errors and nothing else, "
-                         "then the exact oracle applies again to new operations and Add/Remove of a fresh directory must work")
+                         "then the exact oracle applies again to new operations and Add/Remove of a fresh directory must work; plus the name-length sweep of C01 (entry names of 1..255 bytes incl. every 16k-1/16k/16k+1, 239..255, "
+                         "multi-byte and non-UTF-8 units): nothing may appear on Errors")
 _parts("C11", dict(pkg="props", test="TestC11Threads", checks_scale=0.25), dict(pkg="props", test="TestC11Ring", single=True))
 PROPS["C11"]["rule"] += ("; plus threaded mode: 2-8 goroutines each moving its own uniquely named file 3-25 times between two watched directories and an unwatched one; every Create is paired by name with the move that produced it "
                          "(old name iff the source was covered); and ring cases: 9..30 unmatched moves out, then moves in from outside / between watched directories, quiescent and plugged")
